@@ -289,3 +289,12 @@ func relName(f *ssa.Function) string {
 	s = strings.ReplaceAll(s, modPath, "dials")
 	return s
 }
+
+// pkgRelOfFn returns the module-relative package path of f ("" for the root package).
+func (w *World) pkgRelOfFn(f *ssa.Function) string {
+	p := w.pkgOfFn(origin(f))
+	if p == nil {
+		return "?"
+	}
+	return strings.TrimPrefix(strings.TrimPrefix(p.PkgPath, modPath), "/")
+}
